@@ -1,8 +1,9 @@
 (** * C09 correspondence: a schedule executed on the real engine (compactor held at its schedule
     points, client statements in between) replayed, per table, as the model's events: the model
     accepts the sequence, acknowledges exactly the DELETEs the engine acknowledged, and ends with
-    the rows the engine returns. *)
-From RL Require Export Model.Store Model.Conc.
+    the rows the engine returns — which are also the rows of the serial execution of the acknowledged
+    statements in the order of the ghost log (C10). *)
+From RL Require Export Model.Store Model.Conc Model.ConcSerial.
 From Coq Require Export List Arith Bool NArith.
 Export ListNotations.
 
@@ -34,5 +35,10 @@ Definition check_case (c : case) : list nat :=
   | None => [1%nat]                      (* the engine did something the protocol does not allow *)
   | Some s =>
       (if eq_ln (sortn (disk_scan (c_tbl s))) (c_final c) then [] else [2%nat]) ++
-      (if eq_ln (sortn (dedup (c_acked s))) (c_acked_obs c) then [] else [3%nat])
+      (if eq_ln (sortn (dedup (c_acked s))) (c_acked_obs c) then [] else [3%nat]) ++
+      (* C10: the serial execution of the acknowledged statements, in the order of the ghost log, gives the rows observed *)
+      match grun g_init (map to_ev (c_events c)) with
+      | Some g => if eq_ln (sortn (serial_run (g_log g))) (c_final c) then [] else [4%nat]
+      | None => [4%nat]
+      end
   end.
